@@ -14,8 +14,9 @@ func init() {
 		Props: []string{"C15", "C02"},
 		Min:   2,
 		Doc: "the multiplexed receiver does not wait for room in its acknowledgement queue behind the end of the control stream (F78): (queue) every send on the channel the control writer drains, in RecvManifestMultiStream and its closures, is a clause of a select that has a default clause or " +
-			"a clause receiving from a channel that the control reader closes when it ends on an error; (closed) that close is a statement of the reader's `err != nil` branch itself (not under a further condition, not in a select clause) - " +
-			"a peer that stops reading the control stream fills the queue, and when it then ends its side of the stream and keeps the connection open the receive loop, waiting for room with only its own context as a way out, never saw the end of the stream",
+			"a clause receiving from a channel that the control reader closes on every way out; (closed) that close is deferred at the top of the reader's body, or lies in front of every return of the reader, the one behind the End record included (F83) - " +
+			"a peer that stops reading the control stream fills the queue, and when it then ends its side of the stream and keeps the connection open the receive loop, waiting for room with only its own context as a way out, never saw the end of the stream; " +
+			"(deadline, F83) the goroutine that drains the queue writes to the control stream through writeFullWithTimeout only, so that a peer that never reads fails the receive after the stream I/O timeout",
 		Run: runAckQueueNotBehindEnd,
 	})
 }
@@ -48,41 +49,69 @@ func runAckQueueNotBehindEnd(c *Ctx) {
 		c.MissingAnchor("the control reader goroutine of transfer.RecvManifestMultiStream (readControlMessage)")
 		return
 	}
-	// channels the reader closes in its error branch, as a statement of that branch
+	// channels the reader closes on EVERY way out (an error, the End record: F83): a deferred close at the top of its body,
+	// or a close that every return lies behind
 	ended := map[types.Object]bool{}
 	{
 		info := reader.Info()
-		ast.Inspect(reader.Body, func(m ast.Node) bool {
-			is, ok := m.(*ast.IfStmt)
-			if !ok {
-				return true
+		isClose := func(call *ast.CallExpr) types.Object {
+			if len(call.Args) != 1 {
+				return nil
 			}
-			o, nilOnTrue, ok := NilTest(info, is.Cond)
-			if !ok || nilOnTrue || o == nil || !isErrorType(o.Type()) {
-				return true
+			if id, ok := ast.Unparen(call.Fun).(*ast.Ident); ok && id.Name == "close" {
+				if _, isBuiltin := info.Uses[id].(*types.Builtin); isBuiltin {
+					return ObjOf(info, call.Args[0])
+				}
 			}
-			for _, st := range is.Body.List {
-				es, ok := st.(*ast.ExprStmt)
-				if !ok {
-					continue
+			return nil
+		}
+		for _, st := range reader.Body.List {
+			if ds, ok := st.(*ast.DeferStmt); ok {
+				if o := isClose(ds.Call); o != nil {
+					ended[o] = true
 				}
-				call, ok := es.X.(*ast.CallExpr)
-				if !ok || len(call.Args) != 1 {
-					continue
-				}
-				if id, ok := ast.Unparen(call.Fun).(*ast.Ident); ok && id.Name == "close" {
-					if _, isBuiltin := info.Uses[id].(*types.Builtin); isBuiltin {
-						if co := ObjOf(info, call.Args[0]); co != nil {
-							ended[co] = true
-						}
-					}
+			}
+		}
+		cands := map[types.Object]bool{}
+		InspectNoLits(reader.Body, func(m ast.Node) bool {
+			if call, ok := m.(*ast.CallExpr); ok {
+				if o := isClose(call); o != nil {
+					cands[o] = true
 				}
 			}
 			return true
 		})
+		for o := range cands {
+			if ended[o] {
+				continue
+			}
+			obj := o
+			spec := &PassSpec{Name: "closed", SkipDefer: true, Vias: []Via{{Call: func(g *FuncInfo, c2 *ast.CallExpr) (string, bool) {
+				if isClose(c2) == obj {
+					return "closed", true
+				}
+				return "", false
+			}, Immediate: true}}}
+			all, n := true, 0
+			for _, b := range reader.CFG().Blocks {
+				if !b.Live {
+					continue
+				}
+				if _, ok := IsReturnExit(b); ok {
+					n++
+					if len(b.Nodes) == 0 || !spec.Passed(reader, NodeRef{b, len(b.Nodes) - 1}, "closed") {
+						all = false
+					}
+				}
+			}
+			if all && n > 0 {
+				ended[o] = true
+			}
+		}
 	}
-	c.Check(len(ended) > 0, "ack-queue/closed", reader.Pos(), "the control reader closes a channel when it ends on an error",
-		"the goroutine that reads the control stream closes no channel in its `err != nil` branch (as a statement of that branch): nothing tells a receive loop that waits for room in the acknowledgement queue that the peer has gone from the stream")
+	c.Check(len(ended) > 0, "ack-queue/closed", reader.Pos(), "the control reader closes a channel on every way out",
+		"the goroutine that reads the control stream closes no channel on every one of its ways out (a deferred close, or a close in front of every return - the return behind the End record included): "+
+			"a receive loop that waits for room in the acknowledgement queue is not told that nothing more is read from the stream, and sits there with the End record queued behind the record it is stuck on")
 	// the queue: channels whose element type carries a *FileDone
 	isQueue := func(t types.Type) bool {
 		ch, ok := types.Unalias(t).Underlying().(*types.Chan)
@@ -150,6 +179,80 @@ func runAckQueueNotBehindEnd(c *Ctx) {
 	}
 	if n == 0 {
 		c.Bad("ack-queue/queue/none", recv.Pos(), "found no send on the control writer's queue in RecvManifestMultiStream")
+	}
+	// (deadline) the goroutine that drains the queue writes to the control stream with a deadline only
+	var streamObj types.Object
+	{
+		info := reader.Info()
+		InspectNoLits(reader.Body, func(m ast.Node) bool {
+			if call, ok := m.(*ast.CallExpr); ok && len(call.Args) >= 1 {
+				if f := Callee(info, call); f != nil && f.Name() == "readControlMessage" {
+					streamObj = ObjOf(info, call.Args[0])
+				}
+			}
+			return true
+		})
+	}
+	nw := 0
+	for _, f := range kids {
+		if f.Lit == nil || f == reader {
+			continue
+		}
+		info := f.Info()
+		drains := false
+		InspectNoLits(f.Body, func(m ast.Node) bool {
+			if u, ok := m.(*ast.UnaryExpr); ok && u.Op == token.ARROW && isQueue(info.TypeOf(u.X)) {
+				drains = true
+			}
+			return true
+		})
+		if !drains {
+			continue
+		}
+		InspectNoLits(f.Body, func(m ast.Node) bool {
+			call, ok := m.(*ast.CallExpr)
+			if !ok || streamObj == nil {
+				return true
+			}
+			uses := false
+			for _, a := range call.Args {
+				if ObjOf(info, a) == streamObj {
+					uses = true
+				}
+			}
+			if !uses {
+				return true
+			}
+			nw++
+			g := p.CalleeInfo(info, call)
+			good := g != nil && (g.Name == "transfer.writeFullWithTimeout" || g.Name == "transfer.writeFullWithTimeoutDelta")
+			// ... and a failed write ends the receive: the `if err := write(..); err != nil` body records the error / cancels
+			if good {
+				ends := false
+				for _, is := range enclosingIfsOrInit(f.Body, call) {
+					ast.Inspect(is.Body, func(k ast.Node) bool {
+						if c2, ok := k.(*ast.CallExpr); ok {
+							if id, ok := ast.Unparen(c2.Fun).(*ast.Ident); ok && (id.Name == "setRecvErr" || strings.Contains(strings.ToLower(id.Name), "cancel")) {
+								ends = true
+							}
+						}
+						return true
+					})
+				}
+				if !ends {
+					c.Bad(fmt.Sprintf("ack-queue/deadline/%s#%d", f.Name, nw), call.Pos(), f.Name+" writes an acknowledgement with a deadline but a failed write does not end the receive (no setRecvErr / cancel in the branch that sees the error): "+
+						"the writer is gone, the queue stays full, and the receive loop waits in it - behind a control reader that is itself stuck on the loop - for ever")
+					return true
+				}
+			}
+			c.Check(good, fmt.Sprintf("ack-queue/deadline/%s#%d", f.Name, nw), call.Pos(), "acknowledgements are written with the transfer's write deadline",
+				f.Name+" hands the control stream to a writer other than writeFullWithTimeout: a plain blocking write to a peer that never reads its acknowledgements (and keeps the connection open) holds the writer, the full queue behind it holds the receive loop, "+
+					"and with the loop stuck the control reader stops at its 65th record - the receive never returns, whatever the peer sends or ends afterwards")
+			return true
+		})
+	}
+	if nw == 0 {
+		c.Bad("ack-queue/deadline/none", recv.Pos(), "found no write to the control stream in the goroutine that drains the acknowledgement queue")
 	}
 }
 
@@ -1024,23 +1127,30 @@ func runEmptyTreeConfirmed(c *Ctx) {
 		return
 	}
 	info := f.Info()
-	// the last `if totalFiles == 0 { ... }` directly in the body
+	// the step in front of the final `return nil`: an if (whatever the spelling of its condition) or a bare select that waits
 	var last *ast.IfStmt
-	for _, st := range f.Body.List {
-		is, ok := st.(*ast.IfStmt)
-		if !ok {
-			continue
-		}
-		if be, ok := ast.Unparen(is.Cond).(*ast.BinaryExpr); ok && be.Op == token.EQL && types.ExprString(be.X) == "totalFiles" {
-			if v, ok := constInt(info, be.Y); ok && v == 0 {
-				last = is
+	if n := len(f.Body.List); n >= 2 {
+		if rs, ok := f.Body.List[n-1].(*ast.ReturnStmt); ok && len(rs.Results) == 1 && types.ExprString(rs.Results[0]) == "nil" {
+			switch st := f.Body.List[n-2].(type) {
+			case *ast.IfStmt:
+				hasSelect := false
+				ast.Inspect(st.Body, func(m ast.Node) bool {
+					if _, ok := m.(*ast.SelectStmt); ok {
+						hasSelect = true
+					}
+					return true
+				})
+				if hasSelect && strings.Contains(types.ExprString(st.Cond), "totalFiles") {
+					last = st
+				}
 			}
 		}
 	}
 	if last == nil {
-		c.Unknown("empty-tree/transfer.SendManifestMultiStream", f.Pos(), "cannot find the `if totalFiles == 0 { ... }` step in front of the sender's successful return")
+		c.Unknown("empty-tree/transfer.SendManifestMultiStream", f.Pos(), "cannot find the wait for a tree without files (an if on totalFiles holding a select) in front of the sender's final `return nil`")
 		return
 	}
+	_ = info
 	// confirmed: some receive in the block binds a value that is used in a condition of the block, and a failing outcome returns an error
 	confirmed := false
 	ast.Inspect(last.Body, func(m ast.Node) bool {
@@ -1083,4 +1193,21 @@ func runEmptyTreeConfirmed(c *Ctx) {
 	c.Check(confirmed, "empty-tree/transfer.SendManifestMultiStream", last.Pos(), "success for a tree without files rests on something the receiver sent",
 		"behind `totalFiles == 0` SendManifestMultiStream returns nil whatever ended its wait (the receiver's end of the control stream - the same on success and failure -, five seconds, cancellation): "+
 			"for a tree of directories only, a receiver that could not create one of them reports failure while the sender reports success")
+}
+
+// enclosingIfsOrInit: the if statements whose init statement or condition contains target (the `if err := f(); err != nil` idiom),
+// plus those whose body contains it.
+func enclosingIfsOrInit(root ast.Node, target ast.Node) []*ast.IfStmt {
+	var out []*ast.IfStmt
+	ast.Inspect(root, func(m ast.Node) bool {
+		is, ok := m.(*ast.IfStmt)
+		if !ok {
+			return true
+		}
+		if is.Init != nil && is.Init.Pos() <= target.Pos() && target.End() <= is.Init.End() {
+			out = append(out, is)
+		}
+		return true
+	})
+	return out
 }
